@@ -371,8 +371,9 @@ class Verdict:
               "repo_hash": repo_hash()}
         if not self.cov.get("samples"):
             self.cov["samples"] = ["(none recorded)"]
-        os.makedirs(EVID, exist_ok=True)
-        with open(os.path.join(EVID, self.pid + ".json"), "w") as f:
+        evdir = EVID if getattr(self, "write_evidence", True) else os.path.join(BUILD, "replay_evidence")
+        os.makedirs(evdir, exist_ok=True)
+        with open(os.path.join(evdir, self.pid + ".json"), "w") as f:
             json.dump(ev, f, indent=1, sort_keys=True)
         return rc
 
